@@ -6,15 +6,19 @@ VERIF = os.path.dirname(os.path.dirname(os.path.abspath(__file__)))
 
 CHECKS = {
     "C11": dict(
-        text="Coq theorems: the step-by-step interactive BFS reports, for ANY graph instance and ANY start list (unsorted, duplicates), exactly the sizes of the true layers "
-             "and its current layer IS the true layer (C11_ibfs_growth, C11_ibfs_layers); an unthinned BFS-mode walk returns every vertex once with its true distance "
-             "(C11_walks_bfs_exhaustive); the main BFS is C01. NumPy and bit-mask engines: executable Gallina models (NumpyBfs.v: per-generator frontier groups, setdiff against the "
-             "two previous layers, skipped inverse; Bitmask.v: chunk maps, rank/unrank through the 8! prefix table, popcount) evaluated in Coq on the implementation's cases and "
-             "required to give exactly its numbers; all four engines compared with the main BFS and with a naive Python BFS (NumPy engine on coset central states and depth limits, "
-             "interactive engine from start sets on directed/matrix/multi-word graphs, bit-mask engine on n=9 (quick) / n=10 (thorough) families with and without depth limit).",
-        note="PARTIAL: for the NumPy and bit-mask engines the deciding evidence is the model/implementation correspondence plus the comparison with the proved engines; the growth "
-             "theorems for those two models are not proved. The bit-mask whole-engine loop (gray/black bit sets over numba arrays) is compared end-to-end only. Trusted: as C01/C07.",
-        technique="Coq proof (interactive engine and unthinned walk, unbounded) + model/implementation correspondence for the NumPy and bit-mask engines + cross-engine comparison",
+        text="Coq theorems, all unbounded. Interactive engine: for ANY graph instance and ANY start list (unsorted, duplicates) it reports exactly the sizes of the true layers "
+             "and its current layer IS the true layer (C11_ibfs_growth, C11_ibfs_layers). Unthinned BFS-mode walk: every vertex once with its true distance "
+             "(C11_walks_bfs_exhaustive). NumPy engine: the model of bfs_numpy (per-generator frontier groups, setdiff against the two previous layers, skipped inverse generator, "
+             "_make_states_unique) returns exactly the true layer sizes up to the depth limit / first empty layer for ANY bijective generator functions closed under inverse and any "
+             "start state, one-vertex orbit included (C11_numpy_bfs_growth, ..._takewhile, ..._counts_distance_classes). Bit-mask engine: the 8! prefix table is complete and "
+             "duplicate-free, chunk maps are mutually inverse, rank/unrank are mutually inverse for every n >= 8 (C11_prefix_table_complete, C11_chunk_map*_*, C11_rank_unrank, "
+             "C11_unrank_rank). Main BFS: C01. Tie: NumpyBfs.v / Bitmask.v evaluated in Coq on the implementation's cases with exact equality; all four engines compared with "
+             "the main BFS and a naive Python BFS (NumPy engine on coset central states and depth limits, interactive engine from start sets on directed/matrix/multi-word graphs, "
+             "bit-mask engine on n=9 (quick) / n=10 (thorough) families with and without depth limit).",
+        note="PARTIAL for the bit-mask engine only: its rank/unrank layer is proved, its whole-engine loop (gray/black bit sets over numba arrays, chunk scheduling) is compared "
+             "end-to-end with the main BFS, not modelled. The NumPy theorem is about abstract generator functions; that the generated 1-D routine IS the generator action is C02. "
+             "Trusted: as C01/C07.",
+        technique="Coq proof (interactive, unthinned-walk and NumPy engines unbounded; bit-mask rank/unrank layer) + model/implementation correspondence + cross-engine comparison",
         design="7 (C11)"),
     "C15": dict(
         text="Coq theorems about Families.v (one Gallina constructor per library family). GENERAL in n (and k): lrx, lx, top_spin, pancake, coxeter, cyclic_coxeter, stars, "
@@ -42,6 +46,23 @@ CHECKS = {
              "whose orbit exceeds the budget: only the prefix and the sum are decided.",
         technique="Coq proof (reference BFS = distance classes) + kernel evaluation of the verified function on every dataset row + translator-checked dataset definitions",
         design="7 (C17)"),
+    "C16": dict(
+        text="Coq theorems (GapProofs.v, unbounded): for ANY generators written as disjoint 1-based cycles under distinct admissible names, in any interleaving with comment/empty/other "
+             "assignment lines and with an optional identical-pieces partition, the statement-by-statement model of the GAP loader (split on newline and ':=', the regular expression "
+             "\\(([\\d,]+)\\) as a two-state scanner, int(), the JSON subset of the ip line, n = largest index, permutation_from_cycles, _central_state_from_ip) returns exactly those "
+             "permutations on max-index points (each cycle element mapped to its successor, everything else fixed), named as written, with two points coloured equal exactly when "
+             "declared identical (C16_gap_roundtrip, C16_gap_roundtrip_lines, C16_central_state_from_ip_spec). Tie: the model evaluated in Coq on EVERY shipped .gap file (92; the two "
+             "largest only in the thorough tier) and on synthetic valid and malformed texts must return exactly what the implementation returns (names, n, moved points, central "
+             "state, error classes); an independent hand-written cycle reader checks the property itself on all 92 files. Generated puzzles: executable models of cube.py, "
+             "hungarian_rings.py, globe.py (Puzzles.v) compared exhaustively with the implementation over bounded parameter domains (cube n <= 5/7 all metrics, all ring tuples with "
+             "sizes <= 8/12 incl. inadmissible ones, globe a,b <= 5/7) and a structural oracle written from the property text (order 4, exact layer support, per-axis commutation and "
+             "disjointness, single ring cycles meeting exactly at the stated points and spacing, inverse-closedness).",
+        note="PARTIAL: for the generated puzzles the deciding evidence in this commit is the exhaustive bounded correspondence + structural oracle; the bounded Coq structure theorems "
+             "(PuzzlesProofs.v) are added when proved. GAP: texts with extra whitespace inside cycles/JSON are outside the printer's image (covered by correspondence only); "
+             "non-ASCII digits and JSON outside 'lists of lists of non-negative integers' are not modelled (the model answers 'not modelled' and the check fails closed). "
+             "Trusted: Coq kernel + vm_compute, Gap.v/Puzzles.v (validated), Python re/json/str semantics as modelled.",
+        technique="Coq proof (GAP loader round trip, unbounded) + model/implementation correspondence on all shipped files and bounded parameter domains + structural oracle",
+        design="7 (C16)"),
     "C14": dict(
         text="Two Coq obligations. (1) From the CURRENT source: translator T2 regenerates the table of every attribute write in the library (assignments, augmented, subscript "
              "stores, del, setattr; fail-closed on dynamic forms) and Coq re-proves that each one is in a constructor, on an object created in the same function, on a "
@@ -111,8 +132,11 @@ CHECKS = {
         text="Coq theorems about the BFS model with return_all_edges: on a completed run the edge list is exactly {(hash v, hash g(v)) | v in the orbit, g a generator}; on an "
              "interrupted run exactly the out-edges of the non-final layers plus the reversals of the last expansion; states and hashes of every stored layer are aligned (vertex "
              "numbering is consistent). Tie: BFS model with edges compared exactly with the implementation; the renumbering/naming model Export.v (hashes_to_indices, "
-             "edges_list, vertex_name, get_edge_name) compared exactly; dense/sparse matrices, networkx export, symmetry and labels checked against the true graph by the oracle.",
-        note="Trusted: as C01; numpy/scipy/networkx containers compared as sets of triples; Export.v is validated by correspondence only (no theorem about the renumbering yet); "
+             "edges_list, vertex_name, get_edge_name) compared exactly AND proved (C08_hashes_to_indices_iff, C08_edges_list_iff, C08_numbering_consistent, C08_edge_name_spec, "
+             "C08_vertex_name_injective) and composed with the BFS theorems: on a completed run the exported numbering and edge list describe exactly the Schreier graph on the "
+             "orbit, every edge gets the name of a generator realising it, vertex names are distinct (C08_export_is_schreier_graph, C08_export_edge_names, "
+             "C08_export_vertex_names_distinct); dense/sparse matrices, networkx export, symmetry and labels checked against the true graph by the oracle.",
+        note="Trusted: as C01; numpy/scipy/networkx containers compared as sets of triples (dense/sparse adjacency are direct functions of the proved edge list, compared, not modelled); "
              "matrix-graph vertex names (numpy repr) are not modelled.",
         technique="Coq proof (edge-block invariant through the BFS loop) + model/implementation correspondence",
         design="7 (C08)"),
